@@ -42,6 +42,7 @@ class Handshake(Contract):
     props = ("C08", "C05", "C12")
     variants = ("normal", "denied")
     raises = {"builtins.Exception": "x_any"}
+    raises_any_subclass = ("builtins.Exception",)
     trusted = ("validateHandshake, annotations() are user code; serializer loads/dumps are uninterpreted and may raise",
                "DaemonObject.get_metadata returns only for a registered object id (model DaemonObjectModel; its real body is under contract in C16/C02)")
 
@@ -49,7 +50,7 @@ class Handshake(Contract):
         d = new_daemon(E, st)
         conn = new_connection(E, st)
         st.genv = {"current_context": new_call_context(st)}
-        reason = NONE if self.variant == "normal" else VStr(z3.Const("denied_reason", StrS))
+        reason = NONE if getattr(self, "variant", "normal") == "normal" else VStr(z3.Const("denied_reason", StrS))
         st.ghost["user_calls"] = VInt(0)
         return {"self": d, "conn": conn, "denied_reason": reason}
 
@@ -67,6 +68,8 @@ class Handshake(Contract):
         return conn, snd, recv
 
     def ensures(self, E, old, st, a, result):
+        if E.cur_contract is not self:
+            return []          # call site: callers only learn that a bool comes back (the rest is about the internal event log)
         conn, snd, recv = self._facts(E, old, st, a)
         if not isinstance(result, VBool):
             return [("returns True or False (callers test the result)", z3.BoolVal(False))]
@@ -109,7 +112,7 @@ class Handshake(Contract):
             # been received, and the silent return happened through the ConnectionClosedError handler); anything else fails.
             user_raised_closed = bool(got) and not snd and any(t.endswith("L%d:except" % self.closed_handler_line(E)) for t in st.trace)
             post.append(("nothing sent only when the peer closed early", z3.BoolVal((bool(closed_early) and not snd) or user_raised_closed)))
-        if self.variant == "denied":
+        if isinstance(a["denied_reason"], VStr):
             reason = a["denied_reason"]
             post.append(("a denied connection is never accepted", z3.Implies(z3.Length(reason.e) > 0, z3.Not(ok))))
             post.append(("a denied connection never reaches the validator", z3.Implies(z3.Length(reason.e) > 0, z3.BoolVal(not validators))))
@@ -127,6 +130,8 @@ class Handshake(Contract):
         return -1
 
     def x_any(self, E, old, st, a, exc):
+        if E.cur_contract is not self:
+            return []
         conn, snd, recv = self._facts(E, old, st, a)
         # an exception may leave the handshake only from building or sending the answer (reply too large / bad annotation,
         # annotations() hook raising, send failing): the peer is then beyond reach.  Anything else escaping means the peer
